@@ -151,4 +151,46 @@ def journalBackend (σ : Type) : Backend (σ × List σ) σ where
   crashInCommit := fun d w d' => d'.1 = d.1 ∨ d' = (w, [])
   crashInAbort := fun d d' => d'.1 = d.1
 
+
+/-! ### redb 2.6.3 `end_repair` (file format v2): why a SECOND crash can break the assumption
+
+  `TransactionalMemory::end_repair` (redb-2.6.3 src/tree_store/page_store/page_manager.rs:424)
+  finishes repair-on-open by writing the rebuilt allocator state (`allocators.flush_to`) AND the
+  header with `recovery_required = false` in ONE flush (one `sync_data`, no barrier between
+  them).  If the process crashes inside that flush and the header write survives while the
+  allocator pages do not, the next open finds "no recovery required", loads a stale allocator
+  state, and the first write transaction — `RedbStore::new`'s — panics inside redb's page
+  allocator ("Attempted to free page …, which is not allocated"): the store cannot be opened.
+  Found by the multi-crash ops of the C22 harness (`crashr`), see known_findings.json
+  `C22/redb-end-repair-double-crash`.  The following miniature backend isolates the mechanism. -/
+
+/-- a medium: committed logical state, is the on-disk allocator state valid, header flag -/
+structure Medium where
+  committed : Nat
+  allocOk : Bool
+  recoveryRequired : Bool
+  deriving DecidableEq, Repr
+
+/-- the store can be opened iff redb either rebuilds the allocator state (flag set) or the
+    allocator state on the medium is valid -/
+def Medium.openable (m : Medium) : Bool := m.recoveryRequired || m.allocOk
+
+/-- the two writes of `end_repair`'s single flush; `keepAlloc` / `keepHeader` = which survive -/
+def endRepairCrash (m : Medium) (keepAlloc keepHeader : Bool) : Medium :=
+  { committed := m.committed
+    allocOk := if keepAlloc then true else m.allocOk
+    recoveryRequired := if keepHeader then false else m.recoveryRequired }
+
+/-- redb with that `end_repair`: the logical state is `none` when the store cannot be opened.
+    While a database is open the header says `recoveryRequired` and the on-disk allocator state
+    is stale (`allocOk = false`); a crash at any time while the process is working on the medium
+    (here: `crashInTx`, the reopen transaction has not committed) may hit the repair flush. -/
+def endRepairBackend : Backend Medium (Option Nat) where
+  view m := if m.openable then some m.committed else none
+  commit m w := { committed := w.getD m.committed, allocOk := false, recoveryRequired := true }
+  abort m := { m with allocOk := false, recoveryRequired := true }
+  crashInTx m m' := ∃ ka kh, m' = endRepairCrash m ka kh
+  crashInCommit m w m' := m' = m ∨ m' = { committed := w.getD m.committed, allocOk := false, recoveryRequired := true }
+  crashInAbort m m' := m' = m
+
 end Lumina.Model.Crash
